@@ -167,7 +167,8 @@ pub async fn gen_loop(trace: &mut String, rng: &mut Prng, counts: &mut std::coll
         events.push(e);
     }
     if rng.chance(1, 2) {
-        events.push("LEV shutdown".to_string());
+        // half of the final shutdowns are queued directly behind a user gossip request
+        events.push(if rng.chance(1, 2) { "LEV gossipthenshutdown".to_string() } else { "LEV shutdown".to_string() });
     }
     let mut first = true;
     for e in events {
@@ -231,6 +232,11 @@ pub async fn gen_loop(trace: &mut String, rng: &mut Prng, counts: &mut std::coll
                 let _ = handle.gossip(peer);
             }
             "shutdown" => {
+                let _ = handle.initiate_shutdown();
+            }
+            "gossipthenshutdown" => {
+                // both commands are in the channel before the loop runs again
+                let _ = handle.gossip(peer);
                 let _ = handle.initiate_shutdown();
             }
             _ => {}
